@@ -169,8 +169,10 @@ func init() {
 // 4^3 assignments of {unset, shared, contextual, non_shared} to (a, b, c).
 func enumShape(j int) *gen.Cfg {
 	scopes := []string{"", "shared", "contextual", "non_shared"}
-	// a fixed permutation of the family, so that any prefix samples all shapes and assignments
-	j = (j * 37) % EnumFamily
+	// a fixed order of the family: first the members whose assignment contains both a shared and a
+	// contextual scope (where the legality rule can go wrong either way), then the rest; each part in a
+	// fixed permutation, so that any prefix samples all shapes
+	j = enumOrder()[j%EnumFamily]
 	shape, as := j%9, j/9
 	sc := []string{scopes[as%4], scopes[(as/4)%4], scopes[(as/16)%4]}
 	fx := `"` + gen.FxPath + `"`
@@ -353,4 +355,33 @@ func GenOne(t Target, cfg *gen.Cfg, outdir string) *GenOut {
 		_ = os.WriteFile(filepath.Join(dir, "cfg.json"), b, 0644)
 	}
 	return out
+}
+
+var enumOrderCache []int
+
+func enumOrder() []int {
+	if enumOrderCache != nil {
+		return enumOrderCache
+	}
+	var first, rest []int
+	for k := 0; k < EnumFamily; k++ {
+		j := (k * 37) % EnumFamily
+		as := j / 9
+		sh, cx := false, false
+		for d := 0; d < 3; d++ {
+			switch (as >> (2 * uint(d))) & 3 {
+			case 1:
+				sh = true
+			case 2:
+				cx = true
+			}
+		}
+		if sh && cx {
+			first = append(first, j)
+		} else {
+			rest = append(rest, j)
+		}
+	}
+	enumOrderCache = append(first, rest...)
+	return enumOrderCache
 }
